@@ -12,7 +12,7 @@ import (
 	"golang.org/x/net/html"
 )
 
-var c06Refs = []string{"rel/x.png", "/root.png", "//c.t/s.png", "?q=1", "../up.png", "./dot.png", "#frag", "data:image/gif;base64,R0", "javascript:void(0)", "http://o.t/abs.png", "%zz", "w_300,c_fill/a.jpg"}
+var c06Refs = []string{"rel/x.png", "/root.png", "//c.t/s.png", "?q=1", "../up.png", "./dot.png", "#frag", "data:image/gif;base64,R0", "javascript:void(0)", "http://o.t/abs.png", "%zz", "w_300,c_fill/a.jpg", "/web/2020/http://o.t/x.png", "share?u=https://o.t/x"}
 
 // every URL-carrying attribute of every content kind; REF is the reference
 var c06Carriers = []string{
